@@ -524,19 +524,38 @@ def _prec(pp, unit):
     return p[unit] if unit in p else p['default']
 
 
+# observers reached through a sub-slice of a strided slice (columns / rows 1, 3 of the plate, then from the second of those on)
+SUB_SLICES = (("(slice(None), slice(None, None, 2))", "(slice(None), slice(1, None))"),
+              ("(slice(None, None, 2), slice(None))", "(slice(1, None), slice(None))"))
+
+
 def check_plate_observers(pp, subs, plate, where, case, k=0, slices=("slice(None)", "(1, slice(None))",
                                                                       "(slice(None), 1)")):
     vs = []
     slist = [subs[n] for n in sorted(subs)]
-    for sel in slices:
-        view = plate[e1.selectors.ev(sel)]
-        wells = numpy.asarray(view.get())
+    for sel in tuple(slices) + SUB_SLICES:
+        # the wells a view addresses come from the independent resolver (sub-slices of slices: 0-based indexing of the parent's
+        # grid, as in C07), not from the view itself
+        chain = sel if isinstance(sel, tuple) else (sel,)
+        addr, shape = e1.region({'_': plate}, ['_'] + list(chain))
+        if addr is None:
+            continue                                  # the plate is too small for this sub-slice
+        view = plate[e1.selectors.ev(chain[0])]
+        for sub in chain[1:]:
+            _ = (view.shape, view.size)
+            view = view[e1.selectors.ev(sub)]
+        wells = numpy.empty(len(addr), dtype=object)
+        for i, (_n, rc) in enumerate(addr):
+            wells[i] = plate.wells[rc[0], rc[1]]
+        wells = wells.reshape(shape)
+        sel = ']['.join(chain)
         def cmp(name, got, want_arr, unit):
             got = numpy.asarray(got, dtype=float)
-            want = numpy.array([[float(x) for x in row] for row in want_arr], dtype=float).reshape(got.shape) \
-                if got.shape == numpy.shape(want_arr) else None
-            if want is None:
-                return V(f"Plate.{name} | observer-mismatch | shape", f"{where}[{sel}].{name}: shape {got.shape}", case)
+            want = numpy.array(want_arr, dtype=float)
+            if got.size != want.size:
+                return V(f"Plate.{name} | observer-mismatch | shape", f"{where}[{sel}].{name}: shape {got.shape}, the region has "
+                         f"{want.size} wells", case)
+            want = want.reshape(got.shape)
             tolv = 0.5 * 10.0 ** -_prec(pp, unit) * (1 + 1e-6) + 1e-7 * numpy.abs(want) + 1e-9
             if numpy.any(numpy.abs(got - want) > tolv):
                 return V(f"Plate.{name} | observer-mismatch | values",
